@@ -18,14 +18,20 @@ TECHNIQUE = ("Coq: decode programs (assignments, [:0] resets, append loops, payl
 LEVEL_TEXT = ("Theorem (all programs, all old object states, all dirty buffers, all bodies): covers => recv into a recycled object = recv into any other "
               "object, on every field. Obligation over generated tables: covers holds for all 65 registered decode programs (tflush.wait is the one non-wire "
               "field; the generator checks that handleRequest overwrites it). registry.put clears the payload (body matched by the translator). "
-              "Every run decodes frame sequences into really recycled objects and compares with a fresh decode, with the model, and checks backend-seen "
-              "arguments and reply bytes on two interleaved connections.")
-LEVEL_NOTE = ("Object half: proved for the decode programs go2coq reads off every decode method (generated, re-checked each run). Buffer half: Codec/Pool.v is a HAND model "
-              "of recv's appendBuffer, tread.handle and PayloadCleanup with arbitrary previous pool content; C18_pool_independent / C18_read_data are theorems about that model "
-              "(the latter an inductive invariant over any sequence of reads incl. lazy backends, with a _refuted twin for the variant without zeroing); C18_payload_cleared and "
-              "C18_payload_slice hold by construction of the model. The model is tied to the source by three generated syntactic facts (C18_pool_facts: exact-size decode slice, "
-              "Data = buf[:n], zeroing before Put) and by the poisoned-pool / lazy-backend differential on the real code. Trusted: Coq kernel + vm_compute; go2coq CodecGen; "
-              "sync.Pool returns some earlier buffer or a new one (the model quantifies over all contents); vecnet ReadFrom fills the whole slice or fails (C17).")
+              "Read replies: for the generated pool-operation sequence of a Tread, every interleaving of any number of Treads in flight delivers the backend's bytes "
+              "(exclusive buffer ownership invariant). Every run decodes frame sequences into really recycled objects and compares with a fresh decode, with the model, and checks "
+              "backend-seen arguments and reply bytes on two interleaved connections and for pipelined Treads on one connection (gated backend, slow peer).")
+LEVEL_NOTE = ("Object half: proved for the decode programs go2coq reads off every decode method (generated, re-checked each run). Buffer half, read replies: Codec/PoolConc.v models "
+              "connState.readBufPool with buffer IDENTITY (heap + pool as a list of identities, Get returns any pooled buffer or a new one, a double Put makes a duplicate) and any number "
+              "of Treads in flight; the sequence of pool operations of one Tread (Get, ReadAt, send, zeroing, Put) is GENERATED from tread.handle / send / PayloadCleanup (gen_read_ops, "
+              "obligation read_ops_spec) and C18_read_data_concurrent is proved for that program over every interleaving and every pool choice by an exclusive-ownership invariant; the "
+              "model expresses the leaks (_refuted twins: early/double Put, no zeroing). Codec/Pool.v (sequential reads, recv's pooled decode buffer with arbitrary previous content) "
+              "is a hand model; recv's appendBuffer is additionally READ structurally (gen_recv_grow_cmp / decode_slice / read_slice = which view of the pooled buffer decides growth, is "
+              "handed to decode, is filled by ReadFrom), interpreted by Pool.recv_buffer_g which also models the bytes between length and capacity, with C18_pool_generated_independent "
+              "for the generated views and a _refuted theorem for EVERY other decode view; the rest is tied by three generated syntactic facts (C18_pool_facts) and by the poisoned-pool / lazy-backend differential; C18_payload_cleared and C18_payload_slice hold "
+              "BY CONSTRUCTION of the model. The error paths of tread.handle (buffer dropped, never put back) are the prefix Get, ReadAt of the program: covered because a schedule may "
+              "stop a request anywhere. Trusted: Coq kernel + vm_compute; go2coq CodecGen; sync.Pool returns some buffer that was Put or a new one (quantified over); vecnet ReadFrom "
+              "fills the whole slice or fails (C17); handle returns before send starts (data dependency in handleRequest).")
 DESIGN_REF = "6/C18"
 ASSUMPTIONS = [
     "a pool / cache returns some object of the right type in an arbitrary state (quantified over), never one still in use (C10/C06)",
@@ -35,7 +41,8 @@ ASSUMPTIONS = [
 TRUSTED_BASE = [
     "Coq 8.16.1 kernel, vm_compute (generated-table checks and cases evaluation); no native_compute",
     "axioms: none (Print Assumptions: closed under the global context for every property theorem)",
-    "go2coq CodecGen (decode programs, struct field lists, Payload/SetPayload fields, registry.put body, handleRequest's f.wait = nil)",
+    "go2coq CodecGen (decode programs, struct field lists, Payload/SetPayload fields, registry.put body, handleRequest's f.wait = nil; gen_read_ops: event order of "
+    "readBufPool.Get/Put, ReadAt, WriteTo, zeroing copy in tread.handle, send, rreadServerPayloader.PayloadCleanup with defers moved to function end)",
     "harness/p9/c18_reuse_test.go + c01_codec_test.go (reflection dump of message objects, recording backend)",
 ]
 
@@ -152,6 +159,7 @@ def run(ctx):
         {"role": "boundary: an empty Twalk decoded into the object that held a named walk", "case": pick(reuse, lambda o: o["typ"] == 110 and o["reused"] and o["what"] == "empty")},
         {"role": "typical: Twalkgetattr names as the backend saw them", "case": pick(srv, lambda o: o["op"] == "walkgetattr")},
         {"role": "lazy backend after a longer read: reply must be its bytes then zeros", "case": pick(srv, lambda o: o["op"] == "read-lazy")},
+        {"role": "concurrent: reply of a read that was parked in its backend call while another read was served", "case": pick(srv, lambda o: o["op"] == "read-pipelined-outer")},
         {"role": "malformed: body shorter than the type needs, received after two different pool poisons", "case": pick(cut, lambda o: o.get("what") == "poison" and o["at"] == 1)},
         {"role": "malformed: list count 65535 backed by one element", "case": pick(over, lambda o: o["n"] == 65535 and o["present"] == 1)},
     ]
@@ -162,7 +170,8 @@ def run(ctx):
                 "object the registry cache returned (put back after each decode); frames cut in the STREAM after an earlier message (all end in ConnError on a correct tree: "
                 "they guard against recv tolerating a short read) and complete / too-short-body frames received after poisoning dataPool with 0xA5 resp. 0x5A; list counts "
                 "not backed by the body; two connections to one Server: Twalk/Twalkgetattr name lists, Twrite payloads, Tread (honest and lazy backend, whole handed buffer "
-                "inspected for leftovers) and Treaddir replies, lock-step and overlapping. distinct_nontrivial = really recycled decodes whose old state differs from the new "
+                "inspected for leftovers) and Treaddir replies, lock-step and overlapping; pipelined Treads on ONE connection (GOMAXPROCS(1)): a read parked inside its backend call "
+                "(gated) or in send (peer not reading) while one or two more are received, served and answered, honest and lazy, sizes 33..20000. distinct_nontrivial = really recycled decodes whose old state differs from the new "
                 "message + distinct server requests + twice-received frames on which decode ran + count-overrun cases",
         "recycled_decodes": sum(1 for o in reuse if o["reused"]),
         "types_exercised": len({o["typ"] for o in reuse}),
